@@ -153,7 +153,7 @@ func coqVar(set bool, s string) string {
 func c05(args []string) int {
 	run := NewRun("C05", args)
 	r := run.R
-	run.Sum.Rule = "per policy (8): host sets of size 0..5 (thorough 0..6) x EVERY health pattern x weight vectors (equal / unequal -> EDF scheduler absent / present) x active-count vectors x round-robin cursors (0, random, 2^32-2) x scripted draw vectors (all of them for sets <= 3, random above) x choice counts (0..3) x retry re-entries on the same request context (maglev, request-RR) ; plus histories through a real cluster (ChooseHost / health flips / UpdateHosts) and a concurrent replace-while-choosing run. A case is non-trivial when the set has >= 2 hosts and at least one unhealthy host; distinct by (policy, hosts, cursor, draws, picks, ctx)."
+	run.Sum.Rule = "per policy (8): host sets of size 0..5 (thorough 0..6) x EVERY health pattern x weight vectors (equal / unequal -> EDF scheduler absent / present) x active-count vectors x round-robin cursors (0, random, 2^32-2) x scripted draw vectors (all of them for sets <= 3, random above) x choice counts (0..3) x retry re-entries on the same request context (maglev, request-RR) ; plus WRR call sequences on one real balancer with unequal weights and unhealthy hosts (all picks of all calls must be a run of the EDF scheduler model; window bound over healthy hosts), histories through a real cluster (ChooseHost / health flips / UpdateHosts) and a concurrent replace-while-choosing run. A case is non-trivial when the set has >= 2 hosts and at least one unhealthy host; distinct by (policy, hosts, cursor, draws, picks, ctx)."
 	header := "From MV Require Import Gen.LBTokens Model.LB.\nFrom Coq Require Import List ZArith NArith.\nImport ListNotations.\nOpen Scope Z_scope.\n"
 	sh := run.NewShard(header, "lb_case", "lb_mismatches lr_fallback_aware lc_fallback_aware")
 	gen := 0
@@ -404,6 +404,93 @@ func c05(args []string) int {
 		}
 	}
 
+	// ---- WRR with the scheduler in the loop: consecutive ChooseHost calls on ONE real WRR balancer with unequal weights
+	// and some unhealthy hosts.  Every call is also a case above (doCall); here the picks of ALL calls, in order, must be
+	// a run of the EDF scheduler model from a state reachable by the < n pre-picks of refresh (trace inclusion, any
+	// tie-break), and the finder evaluates the window bound on the hosts the scheduler path returned (healthy pairs).
+	wsh := run.NewShard("From MV Require Import Model.LB Model.Edf Model.WRR.\nFrom Coq Require Import List ZArith NArith.\nImport ListNotations.\nOpen Scope Z_scope.\n",
+		"wrrseq_case", "wrrseq_mismatches")
+	for wi := 0; wi < run.N(60, 600); wi++ {
+		n := 2 + r.Intn(4)
+		specs := make([]hostSpec, n)
+		alleq, anyHealthy := true, false
+		for i := range specs {
+			w := uint32(1 + r.Intn(8))
+			switch r.Intn(6) {
+			case 0:
+				w = 128
+			case 1:
+				w = uint32(1 + r.Intn(128))
+			}
+			specs[i] = hostSpec{W: w, Healthy: r.Pct(65)}
+			if w != specs[0].W {
+				alleq = false
+			}
+			anyHealthy = anyHealthy || specs[i].Healthy
+		}
+		if alleq || !anyHealthy {
+			specs[0].W, specs[n-1].W = 3, 5
+			specs[0].Healthy = true
+		}
+		e := build(c05Policies[2], specs, 2, "wrr-sequence")
+		if !cluster.VerifHasScheduler(e.lb) {
+			continue
+		}
+		vctx := variable.NewVariableContext(context.Background())
+		rr := uint32(r.U64())
+		var calls [][]int
+		var hits []int
+		total := 0
+		for k := 0; k < 80 && total < 150; k++ {
+			doCall(e, rr, nil, vctx, false, 0)
+			rr, _ = cluster.VerifRRIndex(e.lb)
+			c := append([]int{}, (*e.picks)...)
+			calls = append(calls, c)
+			total += len(c)
+			if len(c) > 0 && specs[c[len(c)-1]].Healthy {
+				hits = append(hits, c[len(c)-1])
+			}
+		}
+		eff := make([]uint32, n)
+		mask := make([]bool, n)
+		for i, sp := range specs {
+			eff[i] = sp.W
+			if eff[i] < 1 {
+				eff[i] = 1
+			}
+			if eff[i] > 128 {
+				eff[i] = 128
+			}
+			mask[i] = sp.Healthy
+		}
+		rep := map[string]interface{}{"policy": "wrr", "kind": "wrr-sequence", "hosts": specs, "calls_picks": calls, "scheduler_path_results": hits}
+		run.Count(fmt.Sprintf("wrrseq|%v|%v", specs, calls), true, "kind:wrr-sequence")
+		if bad := windowViolationMasked(eff, hits, mask); bad != "" {
+			run.Fail("lb:wrr:window-bound-over-healthy-hosts", "weighted round robin with unhealthy hosts: "+bad, rep)
+		}
+		var hs, ws, cs, hp []string
+		for i, sp := range specs {
+			hs = append(hs, fmt.Sprintf("(mkHost %d %d%%N %s 0%%N 0%%N 0%%N)", i, sp.W, CoqBool(sp.Healthy)))
+			ws = append(ws, CoqZ(int64(eff[i])))
+		}
+		for _, c := range calls {
+			var ps []string
+			for _, p := range c {
+				ps = append(ps, fmt.Sprintf("%d%%nat", p))
+			}
+			cs = append(cs, CoqList(ps))
+		}
+		for _, p := range hits {
+			hp = append(hp, fmt.Sprintf("%d%%nat", p))
+		}
+		wsh.Add(fmt.Sprintf("(%s, %s, %s, %s)", CoqList(hs), CoqList(ws), CoqList(cs), CoqList(hp)), rep)
+		if wsh.Len() >= 60 {
+			wsh.Close()
+			wsh = run.NewShard(wsh.Header, wsh.Typ, wsh.Eval)
+		}
+	}
+	wsh.Close()
+
 	// ---- histories through a real cluster: ChooseHost / health flips / UpdateHosts
 	nh := run.N(40, 400)
 	for hix := 0; hix < nh; hix++ {
@@ -543,4 +630,38 @@ func c05(args []string) int {
 		}
 	}
 	return run.Finish()
+}
+
+// windowViolationMasked checks |n_i/w_i - n_j/w_j| <= 1/w_i + 1/w_j (times w_i*w_j) over every window of the result
+// sequence, for pairs of hosts with mask true.
+func windowViolationMasked(ws []uint32, res []int, mask []bool) string {
+	n := len(ws)
+	for i := 0; i < n; i++ {
+		for j := i + 1; j < n; j++ {
+			if !mask[i] || !mask[j] {
+				continue
+			}
+			wi, wj := int(ws[i]), int(ws[j])
+			ci, cj, mn, mx := 0, 0, 0, 0
+			for k, p := range res {
+				if p == i {
+					ci++
+				}
+				if p == j {
+					cj++
+				}
+				d := ci*wj - cj*wi
+				if d-mn > wi+wj || mx-d > wi+wj {
+					return fmt.Sprintf("window ending at result %d: healthy hosts %d,%d with weights %d,%d exceed the lag bound", k, i, j, wi, wj)
+				}
+				if d < mn {
+					mn = d
+				}
+				if d > mx {
+					mx = d
+				}
+			}
+		}
+	}
+	return ""
 }
